@@ -572,6 +572,17 @@ def check_alter_identity(ctx):
         r = [x for x in p.stmts() if isinstance(x, ast.Return)][-1]
         v = r.value
         n += 1
+        # a returned local stands for what it was last bound to on this path (`_ret = el.alter_sequence(el); return _ret`)
+        hops = 0
+        while isinstance(v, ast.Name) and v.id not in orig and hops < 4:
+            last = None
+            for st in p.stmts():
+                if isinstance(st, ast.Assign) and st.lineno <= r.lineno and any(isinstance(t, ast.Name) and t.id == v.id for t in st.targets):
+                    last = st
+            if last is None or (isinstance(last.value, ast.Call) and (ctx.res.call_canon(last.value) or "").endswith("flatten")):
+                break
+            v = last.value
+            hops += 1
         if isinstance(v, ast.Name) and v.id in orig:
             ctx.ok("C01-h", r, "alter_sequence returns its argument [%s]" % p.describe(2))
         elif isinstance(v, ast.Call):
